@@ -31,6 +31,10 @@ pub enum DOp {
     Delegate2,
     Block,
     Sudo,
+    /// a raw query whose bytes are no query request (the error text comes back to the caller)
+    BadQuery,
+    /// a smart query to an address without contract, and a contract-info query for it
+    QueryNoContract,
 }
 
 const ALL: [DOp; 15] = [DOp::Inst, DOp::Inst2, DOp::ExecCaught, DOp::Store, DOp::Dup1, DOp::Delegate, DOp::Delegate2, DOp::ExecOk, DOp::Send, DOp::Block, DOp::ExecFail, DOp::Mint, DOp::InstFail, DOp::StoreId7, DOp::Sudo];
@@ -135,6 +139,17 @@ fn apply(i: &mut Inst, op: DOp) -> String {
         DOp::Mint => resp(i.app.sudo(SudoMsg::Bank(BankSudo::Mint { to_address: i.v.clone(), amount: vec![coin(5, "y")] }))),
         DOp::Delegate => resp(i.app.execute(u.clone(), StakingMsg::Delegate { validator: "val".into(), amount: coin(4, i.denom) }.into())),
         DOp::Delegate2 => resp(i.app.execute(Addr::unchecked(&i.v), StakingMsg::Delegate { validator: "val".into(), amount: coin(3, i.denom) }.into())),
+        DOp::BadQuery => {
+            use cosmwasm_std::Querier;
+            let texts: Vec<String> = [&b"garbage"[..], &br#"{"nosuchmodule":{}}"#[..], &br#"{"bank":{"balance":{"address":1}}}"#[..]].iter().map(|q| format!("{:?}", i.app.raw_query(q))).collect();
+            format!("query-errors={:016x}/{}", hash64(&texts, 7), texts.iter().map(|t| t.len()).sum::<usize>())
+        }
+        DOp::QueryNoContract => {
+            let a: Result<cosmwasm_std::Empty, _> = i.app.wrap().query_wasm_smart(i.v.clone(), &NodeMsg { n: 0 });
+            let b = i.app.wrap().query_wasm_contract_info(i.v.clone());
+            let texts = vec![format!("{:?}", a.map_err(|e| e.to_string())), format!("{:?}", b.map_err(|e| e.to_string()))];
+            format!("query-errors={:016x}/{}", hash64(&texts, 8), texts.iter().map(|t| t.len()).sum::<usize>())
+        }
         DOp::Block => {
             i.app.update_block(next_block);
             format!("block={:?}", i.app.block_info())
@@ -409,7 +424,7 @@ pub fn run_c19(ctx: &Ctx) -> i32 {
         "traces_validated_against_impl": out.histories + out.interleaved_runs,
         "evaluations": out.histories + out.interleaved_runs,
         "distinct_nontrivial": out.distinct_transcripts,
-        "rule": "(a) every history over the operation alphabet up to the length bound, run on two independently built Apps, transcripts (results, events, data, code ids, addresses, checksums, invocation traces, final raw dump) compared; (b) every ordered pair of shorter histories on two Apps in one thread under every interleaving, each transcript compared with its solo transcript; (0) the same with a second, differently configured App (other bonded denomination, unbonding time, rate, commission, balances): solo transcripts of both configurations, and every pair of short histories under every interleaving and both construction orders; (c') histories with caught failures on one thread, directly and from another thread under extra stack frames, in this process (RUST_BACKTRACE=0) and in a second one with RUST_BACKTRACE=1: all four transcripts equal (the transcript includes the error text handed to reply entry points); (c) digest of everything recomputed in a second OS process with 3 worker threads, which uses the two configurations in the opposite order; distinct_nontrivial = distinct transcripts",
+        "rule": "(a) every history over the operation alphabet up to the length bound, run on two independently built Apps, transcripts (results, events, data, code ids, addresses, checksums, invocation traces, final raw dump) compared; (b) every ordered pair of shorter histories on two Apps in one thread under every interleaving, each transcript compared with its solo transcript; (0) the same with a second, differently configured App (other bonded denomination, unbonding time, rate, commission, balances): solo transcripts of both configurations, and every pair of short histories under every interleaving and both construction orders; (c') histories with caught failures on one thread, directly and from another thread under extra stack frames, in this process (RUST_BACKTRACE=0) and in a second one with RUST_BACKTRACE=1: all four transcripts equal (the transcript includes the error text handed to reply entry points and the error texts of malformed and unanswerable queries); (c) digest of everything recomputed in a second OS process with 3 worker threads, which uses the two configurations in the opposite order; distinct_nontrivial = distinct transcripts",
         "exhaustive": true,
         "histories": out.histories, "history_pairs": out.pairs, "interleaved_runs": out.interleaved_runs,
         "digest": mine, "digest_second_process": other, "environment_histories": eh.len(),
@@ -434,7 +449,7 @@ pub fn env_transcripts() -> (Vec<Vec<DOp>>, Vec<Vec<String>>, Vec<Vec<String>>) 
         }
     }
     set_watch(Watch::default());
-    let hs = histories(&[DOp::Inst, DOp::ExecCaught, DOp::ExecFail, DOp::Block], 3);
+    let hs = histories(&[DOp::Inst, DOp::ExecCaught, DOp::ExecFail, DOp::Block, DOp::BadQuery, DOp::QueryNoContract], 3);
     let direct: Vec<Vec<String>> = hs.iter().map(|h| solo(h)).collect();
     let hs2 = hs.clone();
     let deep: Vec<Vec<String>> = std::thread::spawn(move || {
